@@ -276,6 +276,12 @@ def c02_forms(extended):
     add("f", "store volatile<bool> = (tainted<unsigned> == tainted<unsigned,other>)", "e.V<bool>() = (e.T_<unsigned int>() == e.NT<unsigned int>()); sink(e, e.V<bool>());")
     add("f", "store volatile<bool> = (tainted<int> < tainted<int,other>)", "e.V<bool>() = (e.T_<int>() < e.NT<int>()); sink(e, e.V<bool>());")
     add("f", "compare tainted<pint> == tainted<pint,other>", FP + " auto p = Wd::tptr<int>(e.sb, 512); e.V<bool>() = (p != fp); sink(e, e.V<bool>());")
+    # round 12: the "address of a sandbox function" API asked for something that is not a function -- the result would be a
+    # tainted DATA pointer that no range check has ever seen
+    add("f", "function-address API with an object type: INTERNAL_get_sandbox_function_name<int>(exported symbol)", "auto t = e.sb.INTERNAL_get_sandbox_function_name<int>(\"echo_int\"); sink(e, t);")
+    add("f", "function-address API with an object type: INTERNAL_get_sandbox_function_ptr<int>(application address)", "auto t = e.sb.INTERNAL_get_sandbox_function_ptr<int>(e.raw()); sink(e, t);")
+    add("f", "function-address API with a function-pointer OBJECT type (pointer to pointer)", "auto t = e.sb.INTERNAL_get_sandbox_function_ptr<fnp>(e.raw()); sink(e, t);")
+    add("g", "function-address API with a function type (control)", "auto t = e.sb.INTERNAL_get_sandbox_function_name<int(int)>(\"echo_int\"); sink(e, t);")
     # a class object that converts to a raw pointer as the right operand of tainted number + x: the sum is a raw pointer
     add("f", "tainted<long> + std::reference_wrapper<int*> (sum is an application pointer)", "int* rp = e.raw(); std::reference_wrapper<int*> ref(rp); auto t = e.T_<long>() + ref; sink(e, t);")
     add("f", "tainted<int> + handle class convertible to int* (sum is an application pointer)", "struct Hd { int* p; operator int*() const { return p; } }; Hd h{ e.raw() }; auto t = e.T_<int>() + h; sink(e, t);")
